@@ -32,6 +32,7 @@ Round 7: operator methods handed back by the installer; the field / literal leaf
 try: field.field_name except AttributeError; the program under any local name.
 Round 8: the operator tables hold Python's own operators; the element of a repeated / optional
 field is named before the expressions over it are compiled.
+Round 9: a compiler picked from a (class, function) table at run time: no verdict.
 """
 import ast
 import copy
@@ -226,6 +227,11 @@ def run_body(stmts, env, calls):
     for s in stmts:
         if isinstance(s, ast.Assign) and len(s.targets) == 1 and isinstance(s.targets[0], ast.Name):
             env[s.targets[0].id] = mini(s.value, env)
+        elif isinstance(s, ast.Assign) and len(s.targets) == 1 and isinstance(s.targets[0], ast.Tuple) and isinstance(s.value, ast.Tuple) \
+                and len(s.targets[0].elts) == len(s.value.elts) and all(isinstance(t, ast.Name) for t in s.targets[0].elts):
+            vals = [mini(v, env) for v in s.value.elts]
+            for t, v in zip(s.targets[0].elts, vals):
+                env[t.id] = v
         elif isinstance(s, ast.If):
             if mini(s.test, env):
                 run_body(s.body, env, calls)
@@ -238,6 +244,14 @@ def run_body(stmts, env, calls):
                 kw[k.arg] = k.value.value if isinstance(k.value, ast.Constant) else canon(k.value)
             name = mini(c.args[1], env) if len(c.args) > 1 else None
             opexpr = canon(c.args[2]) if len(c.args) > 2 else None
+            # flags handed on through a local that holds a constant on this iteration
+            if any(isinstance(a, ast.Name) and isinstance(env.get(a.id), bool) for a in list(c.args[3:]) + [k.value for k in c.keywords]):
+                c = copy.deepcopy(c)
+                c.args = c.args[:3] + [ast.Constant(value=env[a.id]) if isinstance(a, ast.Name) and isinstance(env.get(a.id), bool) else a for a in c.args[3:]]
+                for k in c.keywords:
+                    if isinstance(k.value, ast.Name) and isinstance(env.get(k.value.id), bool):
+                        k.value = ast.Constant(value=env[k.value.id])
+                        kw[k.arg] = k.value.value
             kw['<call>'] = c
             calls.append((name, opexpr, kw, s.lineno))
         elif isinstance(s, ast.Expr) and isinstance(s.value, ast.Call) and isinstance(s.value.func, ast.Name) and s.value.func.id == 'setattr' and len(s.value.args) == 3:
@@ -385,7 +399,7 @@ def check_tables(ctx):
                 ok = True
                 if name != want:
                     ok = ctx.violation(rule, fi, '%s installed as %s' % (st, name), 'Python looks this operator up as %s' % want, line, clause='a')
-                if opexpr != lp.target.id:
+                if opexpr != lp.target.id and not (opexpr in env and env.get(opexpr) == env.get(lp.target.id)):
                     ok = ctx.violation(rule, fi, '%s bound to %s' % (st, opexpr), 'the method must be bound to the operator it is named after', line, clause='a')
                 kinds = installer_kinds(repo, kw['<call>']) if '<call>' in kw else None
                 shown = sorted(kinds) if kinds is not None else None
